@@ -238,7 +238,18 @@ def run_case(args):
             plan = [int(x) for x in st[2:]]
             res["plan_len"] = len(plan)
             p2 = dict(params)
-            sc = nasim.generate_scenario(**p2)          # same seed: terminated in the worker already
+            if res.get("prior"):
+                # the scenario of a *reused* generator object: reproduce the reuse (same seeds, same order)
+                from nasim.scenarios.generator import ScenarioGenerator
+                g = ScenarioGenerator()
+                for q in res["prior"]:
+                    q2 = dict(q)
+                    if q2.get("address_space_bounds") is not None:
+                        q2["address_space_bounds"] = tuple(q2["address_space_bounds"])
+                    g.generate(**q2)
+                sc = g.generate(**p2)
+            else:
+                sc = nasim.generate_scenario(**p2)      # same seed: terminated in the worker already
             done, total = replay_plan(sc, plan)
             if st[0] != "1" or not done:
                 res["findings"].append(dict(property="C16", kind="failing-input",
